@@ -274,7 +274,7 @@ class Emitter:
         for i, f in enumerate(sd.fields):
             h = self.hname(f.typ)
             if f.ptr:
-                lines.append('\tif p.%s == nil {\n\t\tr.F[%d] = &RVal{Nil: true}\n\t} else {\n\t\tr.F[%d] = ref_%s(*p.%s)\n\t}' % (f.name, i, i, h, f.name))
+                lines.append('\tif p.%s == nil {\n\t\tr.F[%d] = &RVal{Nil: true}\n\t} else {\n\t\tr.F[%d] = ref_%s(*p.%s)\n\t\tr.F[%d].Nil = false // a non-nil pointer is a present value, even when it points to a nil []byte\n\t}' % (f.name, i, i, h, f.name, i))
             else:
                 lines.append('\tr.F[%d] = ref_%s(p.%s)' % (i, h, f.name))
         if sd.has_unknown:
